@@ -41,6 +41,8 @@ def load_variants() -> List[dict]:
         out.append({"prop": pr, "id": "global/annotate-every-local-assignment", "kind": "B", "rule": "", "transform": "annotate_locals"})
         out.append({"prop": pr, "id": "global/receiver-renamed-this", "kind": "B", "rule": "", "transform": "rename_self"})
         out.append({"prop": pr, "id": "global/comparison-operands-flipped", "kind": "B", "rule": "", "transform": "flip_comparisons"})
+        for tname in ("return_via_local", "split_tuple_assign", "expand_augassign", "listcomp_to_loop", "drop_else_after_return"):
+            out.append({"prop": pr, "id": f"global/{tname.replace('_', '-')}", "kind": "B", "rule": "", "transform": tname})
     # regressions: reverse patches of the fix commits (real defects of the pinned tree)
     for r in getattr(mod, "REGRESSIONS", []):
         out.append(dict(r, kind="M", patch=str(VERIF / "selfval" / "regressions" / r["patch"])))
